@@ -18,13 +18,29 @@ C08_OneDisconnectPerConnect ==
 C08_ConnectedHasOpenCycle == c.st = "connected" => Cycles(c.ev) = Discs(c.ev) + 1
 \* clean state after the end
 C08_CleanAfter ==
-    (c.st = "disconnected" /\ call.stage = "none") => (c.sid = 0 /\ ~c.reg)
+    \* (dj > 0: an application disconnect() is still waiting for the read loop; it cleans up
+    \* when it returns)
+    (c.st = "disconnected" /\ call.stage = "none" /\ dj = 0 /\ hj = 0) => (c.sid = 0 /\ ~c.reg)
 \* while connected the client is registered and has a session id
 C08_ConnectedConsistent == c.st = "connected" => (c.sid = 1 /\ c.reg)
-\* the background tasks end: wait() returns
+\* the background tasks end, so wait() returns: at quiescence nothing is blocked without a
+\* deadline or without somebody who will wake it
+C08_NoTaskStuck ==
+    (Quiescent /\ NoDev) =>
+        /\ (rd.st \in {"get", "recv"} => rd.dl # None)
+        /\ (wr.st \in {"qwait", "post"} => wr.dl # None)
+        /\ (rd.st = "joinw" => wr.st \in {"qwait", "post"})
+        /\ (call.stage # "none" => call.dl # None)
+        /\ ((dj > 0 \/ wj > 0 \/ hj > 0) => rd.st \in {"get", "recv", "joinw"})
+\* once disconnected (and no connect() in progress) the loops are on their way out: the
+\* reader is not going to issue another request
 C08_TasksEnd ==
     (Quiescent /\ NoDev /\ c.st = "disconnected" /\ call.stage = "none") =>
-        (rd.st \in {"none", "done"} /\ wj = 0 /\ dj = 0)
+        (rd.st \in {"none", "done", "joinw"} \/ (rd.st \in {"get", "recv"} /\ rd.dl # None))
+\* negative-control form: once a POST has failed the connection must not stay "connected" for
+\* ever (violated when the repaired defect F17 is re-admitted)
+C08_PostFailureEndsConnectionRaw ==
+    ("PostFailureSilent" \in c.dev /\ Quiescent /\ now >= 30) => c.st # "connected"
 \* nothing is delivered after the disconnect event of the last cycle ... except messages that
 \* were already received
 \* C09: messages are handled exactly once, in arrival order
